@@ -248,6 +248,14 @@ class SymbolicExpression(Generic[T], ABC):
         """
         Get the root of the symbolic expression tree that contains conditions.
         """
+        # inside the conditions of a (possibly nested) query: the conditions of the nearest enclosing query descriptor
+        node = self
+        while node._parent_ is not None:
+            parent = node._parent_
+            if isinstance(parent, QueryObjectDescriptor) and parent._child_ is node:
+                return node
+            node = parent
+        # above the conditions (a quantifier, a descriptor, a selected expression): the conditions of the outermost query
         conditions_root = self._root_
         while conditions_root._child_ is not None:
             conditions_root = conditions_root._child_
